@@ -89,6 +89,8 @@ def build_probes(prefix):
             res[m["target"]["name"]] = (True, None)
         elif m.get("reason") == "compiler-message" and m["message"]["level"] == "error":
             name = m["target"]["name"]
+            if "lib" in m["target"]["kind"]:
+                raise ToolError("the probes support library does not compile: " + m["message"]["message"][:400])
             if name not in res or res[name][0]:
                 code = (m["message"].get("code") or {}).get("code")
                 res[name] = (False, f"{code}: {m['message']['message'][:160]}")
